@@ -73,7 +73,19 @@ def gen_expr(rng, vars_, d, numeric_eq, no_tuple=False):
             return ("name", rng.choice(vars_))
         return ("lit", gen_lit(rng))
     E = lambda: gen_expr(rng, vars_, d - 1, numeric_eq, no_tuple)  # noqa: E731
-    k = rng.choice(["tuple", "tuple", "sub", "sub", "ifexp", "ifexp", "and", "or"])
+    k = rng.choice(["tuple", "tuple", "sub", "sub", "ifexp", "ifexp", "and", "or", "add", "callid", "callint"])
+    if k in ("add", "callint"):
+        # int-like operands only: int/bool literals and parameters declared int / bool
+        def intlike():
+            ip = [v for v in vars_ if v in _INT_PARAMS]
+            if ip and rng.random() < 0.6:
+                return ("name", rng.choice(ip))
+            return ("lit", rng.choice([0, 1, 2, -1, True, False]))
+        if k == "add":
+            return ("add", intlike(), intlike() if rng.random() < 0.8 else ("add", intlike(), intlike()))
+        return ("callint", intlike())
+    if k == "callid":
+        return ("callid", E())
     if no_tuple and k in ("tuple", "sub"):
         # inside loops: no tuple construction (a loop-carried tuple grows on every pass of the analysis
         # and pyanalyze did not terminate on such programs; reported under C12, avoided here)
@@ -183,6 +195,7 @@ def uses_only(e, allowed):
 
 
 _TUPLE_PARAMS = set()
+_INT_PARAMS = set()
 
 
 def gen_program(rng, numeric_eq):
@@ -190,6 +203,8 @@ def gen_program(rng, numeric_eq):
     ptypes = [rng.randrange(len(PTYPES)) for _ in range(np_)]
     _TUPLE_PARAMS.clear()
     _TUPLE_PARAMS.update(i for i, t in enumerate(ptypes) if PTYPES[t][0] == "tuple[int, str]")
+    _INT_PARAMS.clear()
+    _INT_PARAMS.update(i for i, t in enumerate(ptypes) if PTYPES[t][0] in ("int", "bool"))
     vars_ = list(range(np_))
     body = gen_block(rng, vars_, rng.randrange(2, 6), 2, numeric_eq)
     if not body or body[-1][0] != "return":
@@ -286,6 +301,18 @@ class Render:
             a, ca = self.expr(e[1])
             py.operand = a
             return py, f"(ENot {n} {ca})"
+        if k == "add":
+            py = ast.BinOp(None, ast.Add(), None)
+            n = self.label(py)
+            (a, ca), (b, cb) = self.expr(e[1]), self.expr(e[2])
+            py.left, py.right = a, b
+            return py, f"(EAdd {n} {ca} {cb})"
+        if k in ("callid", "callint"):
+            py = ast.Call(ast.Name("lib_ident" if k == "callid" else "lib_int", ast.Load()), [], [])
+            n = self.label(py)
+            a, ca = self.expr(e[1])
+            py.args = [a]
+            return py, f"({'ECallId' if k == 'callid' else 'ECallInt'} {n} {ca})"
         if k in ("and", "or"):
             py = ast.BoolOp(ast.And() if k == "and" else ast.Or(), [])
             n = self.label(py)
@@ -423,7 +450,7 @@ def model_obj_canon(t):
     raise ValueError(t)
 
 
-EXACT_KINDS = ("Call", "Compare", "UnaryOp")
+EXACT_KINDS = ("Call:isinstance", "Call:lib_int", "Compare", "UnaryOp")  # lib_ident(e) is as exact as e is
 AGREEMENT_MIN = 0.90
 NARROWER_MAX = 0.06
 
@@ -587,6 +614,8 @@ def correspondence(rep, proof, tier, rng, found_input):
                 impl = c["impl"].get(lab)
                 node = c["render"].nodes[lab]
                 kn = type(node).__name__
+                if isinstance(node, ast.Call) and isinstance(node.func, ast.Name):
+                    kn = "Call:" + node.func.id
                 if impl is None:
                     continue  # node pyanalyze did not visit (dead code after narrowing): nothing to compare
                 if c01_canon.has_unknown(impl):
@@ -751,7 +780,7 @@ def replay(rep, proof, inp):
     prog = inp["prog"]
 
     def fix(x):
-        if isinstance(x, list) and x and isinstance(x[0], str) and x[0] in ("lit", "name", "tuple", "sub", "ifexp", "isnone", "isinst", "eq", "not", "and", "or", "assign", "if", "while", "return"):
+        if isinstance(x, list) and x and isinstance(x[0], str) and x[0] in ("lit", "name", "tuple", "sub", "ifexp", "isnone", "isinst", "eq", "not", "and", "or", "add", "callid", "callint", "assign", "if", "while", "return"):
             return tuple(fix(y) for y in x)
         if isinstance(x, list):
             return [fix(y) for y in x]
